@@ -24,6 +24,7 @@ CLAUSES = ['Standalone', 'KindInMode', 'ParsesInMode', 'ParsesInMode.ctx', 'Leav
            'SameKindIdentity', 'SameKindNotRefused', 'FormattedVsPure', 'CopyLeavesOperand', 'PutCoerceEquiv',
            'PutFailAtomic', 'CoerceDisabledRaises']
 FULL = ('as_', 'as_copy', 'ctor', 'ctor_nocopy', 'ast')
+FULL_Q = ('as_', 'as_copy', 'ctor', 'ast')
 LIGHT = ('as_', 'as_copy', 'ast')
 CHILD = ('as_', 'ctor')
 
@@ -112,14 +113,14 @@ def build_cases(ctx, table):
 
     for spec, shape, lay in base:
         for m in named:
-            add(spec, m, shape, lay, FULL, True)
-        cm = classm if not ctx.quick else rng.sample(classm, 8) + ['List', 'Set', 'Dict', 'Name', 'MatchSequence',
-                                                                    'MatchMapping', 'Call', 'Starred']
+            add(spec, m, shape, lay, FULL if not ctx.quick else FULL_Q, True)
+        cm = classm if not ctx.quick else rng.sample(classm, 3) + ['List', 'Set', 'Dict', 'Name', 'MatchSequence']
         for m in cm:
             add(spec, m, shape, lay, LIGHT if ctx.quick else FULL, True)
+    if ctx.quick:
+        variants = rng.sample(variants, min(len(variants), 70))
     for spec, shape, lay in variants:
-        ms = named if not ctx.quick else named
-        for m in ms:
+        for m in named:
             add(spec, m, shape, lay, LIGHT if ctx.quick else FULL, not ctx.quick)
         if not ctx.quick:
             for m in classm:
@@ -127,7 +128,7 @@ def build_cases(ctx, table):
     for spec, shape, lay in hosted:
         for m in (named if ctx.quick else named + classm):
             add(spec, m, shape, lay, CHILD, True)
-    rp = repo if not ctx.quick else rng.sample(repo, min(len(repo), 110))
+    rp = repo if not ctx.quick else rng.sample(repo, min(len(repo), 50))
     for spec, shape, lay in rp:
         for m in (named if ctx.quick else named + classm):
             add(spec, m, shape, lay, LIGHT, not ctx.quick)
